@@ -105,15 +105,20 @@ def run(fx, rep):
         for bi, j, s in b.stmts():
             if s['k'] == 'Assign' and s['rv']['k'] == 'Aggregate' and s['rv'].get('variant') == 'UndeclaredReference':
                 srcs.append((b, s))
-    allowed = {
-        'cel_interpreter::context::Context::get_variable::{closure#0}': 'variable miss in the root scope',
-        'cel_interpreter::objects::Value::resolve::{closure#0}': 'function miss',
-        'cel_interpreter::ExecutionError::undeclared_reference': 'public constructor (host use)',
-    }
     for b, s in srcs:
         np = F.norm_path(b.path)
-        rep.check(np in allowed, 'R2', 'source/%s' % np, F.loc_of(s['span']), allowed.get(np, ''),
-                  'UndeclaredReference constructed in %s: a new source of undeclared-reference errors that the collector may not cover' % np)
+        bpv = F.Prov(b)
+        name_terms = sorted(F.term_str(x) for x in bpv.of_operand(s['rv']['ops'][0]))
+        why = None
+        if np == 'cel_interpreter::ExecutionError::undeclared_reference':
+            why = 'public constructor (host use)'
+        elif b.raw.get('parent') and F.norm_path(b.raw['parent']) == 'cel_interpreter::context::Context::get_variable' and all('arg1' in x for x in name_terms):
+            why = 'variable miss in the root scope (names the looked-up variable)'
+        elif b.raw.get('parent') and F.norm_path(b.raw['parent']) == 'cel_interpreter::objects::Value::resolve' and all('func_name' in x for x in name_terms):
+            why = 'function miss (names call.func_name)'
+        key = re.sub(r'\{closure#\d+\}', '{closure}', np)
+        rep.check(why is not None, 'R2', 'source/%s' % key, F.loc_of(s['span']), why or '',
+                  'UndeclaredReference(%s) constructed in %s: a new source of undeclared-reference errors that the collector may not cover' % (name_terms, np))
     # callers of the helper constructor inside the crate
     for b in fx.bodies.values():
         if b.crate != 'cel_interpreter':
